@@ -269,9 +269,9 @@ def check_function(case, out):
 
 
 FACETS = [
-    Facet("points", lambda tier: cases(("frac",)), check, quick=500, thorough=8000, rule="exact normal equations"),
-    Facet("points-float", lambda tier: cases(("float", "npfloat")), check, quick=200, thorough=3000,
+    Facet("points", lambda tier: cases(("frac",)), check, quick=1200, thorough=8000, rule="exact normal equations"),
+    Facet("points-float", lambda tier: cases(("float", "npfloat")), check, quick=500, thorough=3000,
           rule="float data, 1e-8"),
-    Facet("function", lambda tier: function_cases(), check_function, quick=250, thorough=4000,
+    Facet("function", lambda tier: function_cases(), check_function, quick=600, thorough=4000,
           rule="fit_function reproduces members of the space"),
 ]
